@@ -5,3 +5,5 @@ def run(ck):
     except ImportError:
         return
     xk.c11_kernels(ck)
+    import xfull
+    xfull.c11_family(ck)
